@@ -5,6 +5,7 @@ CONSTANTS
  Creators = {}
  Subscribers = {1, 2}
  OtherType = {}
+ MaxPre = 0
  MaxOps = 1
  MaxSends = 3
  MaxServes = 1
